@@ -216,9 +216,6 @@ def genVerify [DecidableEq Tag] (C : Crypto Tag Sess Blob) (dhSecret : Key) (dhR
 /-- settings.circuit_timeout // settings.next_hop_timeout : tries for a new circuit -/
 def genInitialTries : Int := {ct // nh}
 
-/-- settings.next_hop_timeout (seconds): lifetime of a RetryRequestCache -/
-def genNextHopTimeout : Nat := {nh}
-
 end Ipv8.C08
 """
     return out, {"circuit_timeout": ct, "next_hop_timeout": nh}
